@@ -76,6 +76,9 @@ func (c Case) desc() string {
 		if strings.HasPrefix(n, "arm-base") || strings.HasPrefix(n, "arm-delta") {
 			n += "(" + faultKinds[i%len(faultKinds)] + ")"
 		}
+		if n == "stale-base" {
+			n += "(" + []string{"expired", "no-next-update"}[i%2] + ")"
+		}
 		s = append(s, n)
 	}
 	return fmt.Sprintf("shape=%s cache=%v discard=%v ops=[%s]", c.Shape, c.Cache, c.Discard, strings.Join(s, " "))
@@ -237,7 +240,7 @@ type model struct {
 	version            int
 	dlag               int // versions the delta locations lag behind the base
 	discard            bool
-	staleBase          bool
+	staleBase          string // "" | expired | nonext
 	staleFirst         bool
 	cache              *entry
 	getFault, setFault bool
@@ -275,7 +278,7 @@ func (m *model) fetch() prediction {
 	}
 	v := int64(10 * m.version)
 	baseFresh, deltaFresh := true, true
-	if m.staleBase {
+	if m.staleBase != "" {
 		baseFresh = false
 	}
 	delta := int64(-1)
@@ -304,8 +307,11 @@ func (m *model) fetch() prediction {
 			return prediction{err: true, log: log}
 		}
 	}
-	if m.staleBase {
+	switch m.staleBase {
+	case "expired":
 		v += 5
+	case "nonext":
+		v += 7
 	}
 	if m.c.Cache {
 		log = append(log, "cache-set")
@@ -330,7 +336,7 @@ type world struct {
 	fetcher    *crl.HTTPFetcher
 	version    int
 	dlag       int
-	staleBase  bool
+	staleBase  string
 	staleFirst bool
 	baseFault  string
 	deltaFault [3]string
@@ -344,8 +350,8 @@ func newWorld(c *Case) *world {
 			return faultReply(f)
 		}
 		variant := "fresh"
-		if w.staleBase {
-			variant = "expired"
+		if w.staleBase != "" {
+			variant = w.staleBase
 		}
 		der, _ := crlFor(c.Shape, "base", w.version, variant)
 		return netsim.Reply{Body: der, Class: "base"}
@@ -436,9 +442,11 @@ func step(w *world, m *model, idx, op int) (string, string) {
 		w.version++
 		m.version++
 		w.dlag, m.dlag = 0, 0
-		w.staleBase, m.staleBase, w.staleFirst, m.staleFirst = false, false, false, false
+		w.staleBase, m.staleBase, w.staleFirst, m.staleFirst = "", "", false, false
 	case "stale-base":
-		w.staleBase, m.staleBase = true, true
+		// past its next-update, or (every other time) without one
+		k := []string{"expired", "nonext"}[idx%2]
+		w.staleBase, m.staleBase = k, k
 	case "stale-first-delta":
 		w.staleFirst, m.staleFirst = true, true
 	case "publish-base-only":
